@@ -59,7 +59,11 @@ def modems():
             ("PSK8", 3, lambda: M.PSKModulator(order=8), lambda: M.PSKDemodulator(order=8)),
             ("QAM16", 4, lambda: M.QAMModulator(order=16), lambda: M.QAMDemodulator(order=16)),
             ("PAM4", 2, lambda: M.PAMModulator(order=4, gray_coding=False), lambda: M.PAMDemodulator(order=4, gray_coding=False)),
-            ("QAM64", 6, lambda: M.QAMModulator(order=64, gray_coding=False, normalize=False), lambda: M.QAMDemodulator(order=64, gray_coding=False, normalize=False))]
+            ("QAM64", 6, lambda: M.QAMModulator(order=64, gray_coding=False, normalize=False), lambda: M.QAMDemodulator(order=64, gray_coding=False, normalize=False)),
+            # the largest orders the modem property names, with the default Gray labeling (5, 6 and 8 bits per symbol: several blocks per row)
+            ("PAM64g", 6, lambda: M.PAMModulator(order=64), lambda: M.PAMDemodulator(order=64)),
+            ("PSK32g", 5, lambda: M.PSKModulator(order=32), lambda: M.PSKDemodulator(order=32)),
+            ("QAM256g", 8, lambda: M.QAMModulator(order=256), lambda: M.QAMDemodulator(order=256))]
 
 
 def run(run):
@@ -88,7 +92,7 @@ def run(run):
             cfg = {"code": cname, "decoder": dname, "modem": mname, "interface": iface, "blocks_per_row": blocks}
             if blocks > 1 and not multi:
                 continue          # this encoder accepts exactly one block per row: only modems that frame whole symbols in one block match
-            if quick and mname == "QAM64" and cname not in ("Hamming(7,4)", "LDPC(3x6)"):
+            if quick and mname in ("QAM64", "PAM64g", "PSK32g", "QAM256g") and cname not in ("Hamming(7,4)", "LDPC(3x6)"):
                 continue
             try:
                 dec = mkdec(enc)
